@@ -117,7 +117,7 @@ PROPS['C14'] = dict(
                      '(45 serial + 11 MPI structs); every documented enumeration name of the 8 enumeration types; every nesting level for unknown keys; '
                      '44 compile probes'),
     min_nontrivial=dict(quick=800, thorough=3000),
-    require_obs=dict(quick=['table_struct_cases', 'invalid_enum_strings_tried', 'unknown_runtime_levels', 'documented_members', 'foreign_keys_injected', 'equiv_mpi_relaxations'],
+    require_obs=dict(quick=['table_struct_cases', 'invalid_enum_strings_tried', 'unknown_runtime_levels', 'documented_members', 'foreign_keys_injected', 'equiv_mpi_relaxations', 'thread_history_steps'],
                      thorough=['table_struct_cases', 'invalid_enum_strings_tried', 'unknown_runtime_levels', 'documented_members', 'foreign_keys_injected', 'equiv_mpi_relaxations']),
     assumptions=COMMON_ASSUME + ['Boost.PropertyTree text round trip of arithmetic values (max_digits10) is trusted',
                                  'pointer-valued parameters are checked for import only (the library copies the pointee)'],
